@@ -1,1 +1,184 @@
-From Usim Require Import SimRes.
+(* C19 -- SimPy resources keep capacity, conserve content, serve requests in policy order.
+   Model: theories/SimRes.v, proofs: theories/SimResProps.v.  Every statement quantifies over ALL
+   histories (lists of operations put/get/request/release/cancel/process-callbacks/clock) unless it
+   is a statement about a single step from an arbitrary state. *)
+From Coq Require Import ZArith List Bool Sorted Permutation.
+From Usim Require Import SimRes SimResProps.
+Import ListNotations.
+Local Open Scope Z_scope.
+
+(* Container: level within [0, capacity], level = initial + granted puts - granted gets *)
+Theorem container_bounds_conservation : forall cap i h s tr,
+    0 <= i <= cap -> run (container cap) (init i) h = (s, tr) ->
+    0 <= content s <= cap /\ content s = i + sum_puts tr - sum_gets tr.
+Proof. exact SimResProps.container_bounds_conservation. Qed.
+Print Assumptions container_bounds_conservation.
+
+(* Store: items handed out = prefix of items accepted, the rest is the content; never above capacity;
+   every granted get receives an item *)
+Theorem store_fifo_exactly_once : forall cap h s tr,
+    run (store cap) (init []) h = (s, tr) ->
+    put_items tr = got_items tr ++ content s /\ (length (content s) <= cap)%nat /\
+    Forall (@got_something unit) tr.
+Proof. exact SimResProps.store_fifo_exactly_once. Qed.
+Print Assumptions store_fifo_exactly_once.
+
+(* PriorityStore: the trace is accepted by the bag specification (every get returns an element of the
+   bag with minimal key and removes exactly it); the content is that bag, sorted *)
+Theorem prioritystore_min_first : forall cap h s tr,
+    run (prioritystore cap) (init []) h = (s, tr) ->
+    StronglySorted item_leP (content s) /\ (length (content s) <= cap)%nat /\
+    exists b, bag_run [] tr = Some b /\ Permutation b (content s).
+Proof. exact SimResProps.prioritystore_min_first. Qed.
+Print Assumptions prioritystore_min_first.
+
+(* FilterStore: every get receives the first stored item its filter accepts (fs_spec); after anything
+   that serves the get queue NO waiting request, wherever it waits, accepts a stored item *)
+Theorem filterstore_first_match_nonblocking : forall cap,
+    (forall h s tr, run (filterstore cap) (init []) h = (s, tr) ->
+                    fs_spec [] tr (content s) /\ (length (content s) <= cap)%nat) /\
+    (forall s o s' outs,
+        step (filterstore cap) s o = (s', outs) -> triggers_get (filterstore cap) s o = true ->
+        forall r x, In r (getq s') -> In x (content s') -> accepts (snd r) x = false).
+Proof. exact SimResProps.filterstore_first_match_nonblocking. Qed.
+Print Assumptions filterstore_first_match_nonblocking.
+
+(* Resource / PriorityResource / PreemptiveResource: users <= capacity, and the users are exactly the
+   requests granted and neither released nor evicted since *)
+Theorem resource_capacity : forall k cap h s tr,
+    run (res_mach k cap) (init []) h = (s, tr) ->
+    (length (content s) <= cap)%nat /\ Permutation (holders tr) (map uid (content s)).
+Proof. exact SimResProps.resource_capacity. Qed.
+Print Assumptions resource_capacity.
+
+(* Grant order: with request ids issued in increasing order, after every step of every history the
+   requests granted by the step (in grant order) followed by the requests still waiting are sorted by
+   the policy: request order (FIFO types), (priority, time, not preempt, request order) for
+   PriorityResource and PreemptiveResource.  In particular the priority queue stays sorted forever. *)
+Theorem grant_policy_order :
+    (forall C P G N (M : mach C P G N), fifo_mach M ->
+     forall c0 h o s outs0 s' outs,
+       incr 0 (h ++ [o]) -> run M (init c0) h = (s, outs0) -> step M s o = (s', outs) ->
+       granted_then_waiting M (@idlt P) s' outs) /\
+    (forall C G N (M : mach C req G N), prio_mach M ->
+     forall c0 h o s outs0 s' outs,
+       incr 0 (h ++ [o]) -> run M (init c0) h = (s, outs0) -> step M s o = (s', outs) ->
+       granted_then_waiting M rq_lt s' outs) /\
+    all_fifo_or_prio.
+Proof. exact SimResProps.grant_policy_order. Qed.
+Print Assumptions grant_policy_order.
+
+(* PreemptiveResource: every eviction in every history is made for a preempting request whose key is
+   STRICTLY smaller than the victim's, when all slots are taken, and the victim is the worst user;
+   the other resource types never evict *)
+Theorem preempt_strictly_better : forall k cap h s tr,
+    run (res_mach k cap) (init []) h = (s, tr) -> Forall (eviction_justified k cap) tr.
+Proof. exact SimResProps.preempt_strictly_better. Qed.
+Print Assumptions preempt_strictly_better.
+
+(* ... and such a request IS served by evicting the worst user *)
+Theorem preempt_complete : forall cap t c r v rc,
+    length c = cap -> preempt (snd r) = true -> rev c = v :: rc -> klt (rkey (snd r)) (rkey (ureq v)) ->
+    exists c', pre_put cap t c r = Some (c', Some v).
+Proof. exact SimResProps.preempt_complete. Qed.
+Print Assumptions preempt_complete.
+
+(* No idle capacity with a grantable head *)
+Theorem grantable_head_granted : forall C P G N (M : mach C P G N), well_behaved M ->
+    (forall s o s' outs, step M s o = (s', outs) -> triggers_put M s o = true -> grantable_put M s' = false) /\
+    (forall s o s' outs, step M s o = (s', outs) -> triggers_get M s o = true -> grantable_get M s' = false) /\
+    (forall s o s' outs, step M s o = (s', outs) -> is_cancel o = false ->
+                         Jput M s /\ Jget M s -> Jput M s' /\ Jget M s') /\
+    (forall c0 h s outs, run M (init c0) h = (s, outs) -> cancel_free h -> pend s = [] ->
+                         grantable_put M s = false /\ grantable_get M s = false).
+Proof. exact SimResProps.grantable_head_granted. Qed.
+Print Assumptions grantable_head_granted.
+
+Theorem every_resource_well_behaved : all_well_behaved.
+Proof. exact SimResProps.every_resource_well_behaved. Qed.
+Print Assumptions every_resource_well_behaved.
+
+(* cancel / release give back exactly what was held *)
+Theorem cancel_release_give_back : forall k cap h s tr,
+    run (res_mach k cap) (init []) h = (s, tr) ->
+    (forall id rid, exists s',
+        step (res_mach k cap) s (OGet id rid) = (s', [EGet id rid None]) /\
+        content s' = remove_user rid (content s) /\ putq s' = putq s /\ getq s' = [] /\
+        length (content s') =
+          (length (content s) - (if existsb (fun u => Nat.eqb (uid u) rid) (content s) then 1 else 0))%nat /\
+        (forall u, uid u <> rid -> (In u (content s') <-> In u (content s)))) /\
+    (forall id, step (res_mach k cap) s (OCancel id) =
+                (St (now s) (content s) (remove_id id (putq s)) (remove_id id (getq s)) (pend s), [])).
+Proof. exact SimResProps.cancel_release_give_back. Qed.
+Print Assumptions cancel_release_give_back.
+
+Theorem cancel_exact : forall C P G N (M : mach C P G N) s id,
+    step M s (OCancel id) =
+    (St (now s) (content s) (remove_id id (putq s)) (remove_id id (getq s)) (pend s), []).
+Proof. exact SimResProps.cancel_exact. Qed.
+Print Assumptions cancel_exact.
+
+(* ------------------------------------------------------------------------------------------ *)
+(* Examples: the hypotheses are satisfiable, the interesting behaviours occur *)
+
+(* increasing ids *)
+Example incr_satisfiable :
+  incr 0 [OPut 0%nat (Req 1 0 true 0); OTime 2; OPut 1%nat (Req 0 2 true 1); OGet 2%nat 0%nat; OCancel 1%nat;
+          OProc (P := req) (G := nat) 2%nat].
+Proof. simpl. repeat split; auto with arith. Qed.
+
+(* PreemptiveResource, capacity 1: user 0 (priority 2) is evicted by request 1 (priority 0); request 2
+   (priority 1, does not preempt) waits; the trace carries the Preempted details (victim, usage_since) *)
+Example preemption_happens :
+  let h := [OPut 0%nat (Req 2 0 true 10); OTime 3; OPut 1%nat (Req 0 3 true 11); OPut 2%nat (Req 1 3 false 12)] in
+  snd (run (preemptiveresource 1) (init []) h)
+  = [EPut 0%nat (Req 2 0 true 10) None; EPut 1%nat (Req 0 3 true 11) (Some (0%nat, Req 2 0 true 10, 0))]
+  /\ map fst (putq (fst (run (preemptiveresource 1) (init []) h))) = [2%nat].
+Proof. vm_compute. split; reflexivity. Qed.
+
+(* an equal key does not evict, a non-preempting better request does not evict *)
+Example no_eviction_without_strictly_better :
+  snd (run (preemptiveresource 1) (init [])
+         [OPut 0%nat (Req 1 0 true 10); OPut 1%nat (Req 1 0 true 11); OPut 2%nat (Req 0 0 false 12)])
+  = [EPut 0%nat (Req 1 0 true 10) None].
+Proof. vm_compute. reflexivity. Qed.
+
+(* PriorityResource: the queue is still sorted after the first grant (regression D8): requests with
+   priorities 5, 3, 1 queue behind a user; releases serve 1, then 3, then 5 *)
+Example priority_order_after_first_grant :
+  let h := [OPut 0%nat (Req 0 0 true 0); OPut 1%nat (Req 5 0 true 1); OGet 2%nat 0%nat; OProc 2%nat;
+            OPut 3%nat (Req 3 0 true 3); OPut 4%nat (Req 1 0 true 4); OPut 5%nat (Req 5 0 true 5);
+            OGet 6%nat 1%nat; OProc 6%nat; OGet 7%nat 4%nat; OProc 7%nat; OGet 8%nat 3%nat; OProc 8%nat] in
+  puts_of (snd (run (priorityresource 1) (init []) h))
+  = [(0%nat, Req 0 0 true 0); (1%nat, Req 5 0 true 1); (4%nat, Req 1 0 true 4); (3%nat, Req 3 0 true 3);
+     (5%nat, Req 5 0 true 5)].
+Proof. vm_compute. reflexivity. Qed.
+
+(* FilterStore: request 0 wants an odd key and matches nothing; the later request 1 is served *)
+Example filterstore_blocked_head_does_not_block :
+  let r := run (filterstore 2) (init []) [OGet 0%nat (2, 1); OGet 1%nat (2, 0); OPut 2%nat (4, 7)] in
+  snd r = [EPut 2%nat (4, 7) None] /\ map fst (getq (fst r)) = [0%nat; 1%nat] /\
+  snd (step (filterstore 2) (fst r) (OProc 2%nat)) = [EGet 1%nat (2, 0) (Some (4, 7))].
+Proof. vm_compute. repeat split; reflexivity. Qed.
+
+(* SimPy semantics kept on purpose: cancelling the head does not re-trigger the queue.  Container with
+   level 2: get 3 waits, get 1 waits behind it; cancelling the first leaves a grantable head and no
+   pending callback -- which is why the third part of grantable_head_granted excludes cancel *)
+Example cancel_may_leave_grantable_head :
+  let s := fst (run (container 5) (init 2) [OGet 0%nat 3; OGet 1%nat 1; OCancel 0%nat]) in
+  grantable_get (container 5) s = true /\ pend s = [].
+Proof. vm_compute. split; reflexivity. Qed.
+
+(* ... and the next operation that serves the queue grants it *)
+Example next_trigger_serves_it :
+  snd (run (container 5) (init 2) [OGet 0%nat 3; OGet 1%nat 1; OCancel 0%nat; OGet 2%nat 4])
+  = [EGet 1%nat 1 tt].
+Proof. vm_compute. reflexivity. Qed.
+
+(* PriorityStore hands out the minimum; Store keeps arrival order *)
+Example stores_order :
+  got_items (snd (run (prioritystore 3) (init []) [OPut 0%nat (3, 0); OPut 1%nat (1, 1); OPut 2%nat (2, 2);
+                                                  OGet 3%nat tt; OGet 4%nat tt])) = [(1, 1); (2, 2)] /\
+  got_items (snd (run (store 3) (init []) [OPut 0%nat (3, 0); OPut 1%nat (1, 1); OPut 2%nat (2, 2);
+                                          OGet 3%nat tt; OGet 4%nat tt])) = [(3, 0); (1, 1)].
+Proof. vm_compute. split; reflexivity. Qed.
